@@ -27,6 +27,9 @@ type c20Op struct {
 	Kind string `json:"kind"` // boot join remove snapshot restart cut heal settle
 	Node int    `json:"node,omitempty"`
 	Via  int    `json:"via,omitempty"`
+	// join+remove: the node removed at the same time and the member the removal goes through
+	Other int `json:"other,omitempty"`
+	Via2  int `json:"via2,omitempty"`
 }
 type c20Case struct {
 	Script  []c20Op                      `json:"script"`
@@ -51,6 +54,7 @@ type c20Net struct {
 	byAddr map[string]*anndb.Server
 	byId   map[uint64]*anndb.Server
 	cut    map[uint64]bool
+	delay  time.Duration // latency of every raft message (0 = delivered at once)
 }
 
 type c20Shim struct {
@@ -62,9 +66,13 @@ func (s *c20Shim) Receive(ctx context.Context, in *pb.RaftMessage, opts ...grpc.
 	s.net.mu.Lock()
 	src := s.net.byId[s.from]
 	cut := s.net.cut[s.from] || s.net.cut[s.to]
+	delay := s.net.delay
 	s.net.mu.Unlock()
 	if src == nil || cut {
 		return nil, fmt.Errorf("unreachable")
+	}
+	if delay > 0 {
+		time.Sleep(delay)
 	}
 	addr, ok := src.VerifConn().Nodes()[s.to]
 	if !ok {
@@ -343,6 +351,40 @@ func runC20Scenario(c *c20Case, st *stats, idx int, scratch string) {
 					return
 				}
 			}
+		case "join+remove":
+			// two membership changes at the same moment through two different members (neither the leader), with some
+			// latency on every raft message: node op.Node joins through op.Via while node op.Other is removed through
+			// op.Via2.  Raft lets one change be pending at a time; the other proposal is dropped and has to be repeated -
+			// an acknowledgement means the change was applied
+			n, via, victim, via2 := node(op.Node), node(op.Via), node(op.Other), node(op.Via2)
+			if via.srv == nil || via2.srv == nil || victim.srv == nil {
+				continue
+			}
+			w.settle(10 * time.Second)
+			w.net.mu.Lock()
+			w.net.delay = 20 * time.Millisecond
+			w.net.mu.Unlock()
+			n.join = []string{via.addr()}
+			var jerr, rerr error
+			var wg sync.WaitGroup
+			wg.Add(2)
+			go func() { defer wg.Done(); jerr = w.start(n, true) }()
+			go func() { defer wg.Done(); rerr = via2.srv.VerifNodesManager().RemoveNode(uint64(victim.id)) }()
+			wg.Wait()
+			w.net.mu.Lock()
+			w.net.delay = 0
+			w.net.mu.Unlock()
+			ev("join %d via %d at the same time as remove %d via %d: join %v, remove %v", n.id, via.id, victim.id, via2.id, jerr, rerr)
+			if jerr == nil {
+				w.members[n.id] = true
+				w.log = append(w.log, fmt.Sprintf("add:%d", n.id))
+			}
+			if rerr == nil {
+				delete(w.members, victim.id)
+				w.log = append(w.log, fmt.Sprintf("remove:%d", victim.id))
+				w.settle(10 * time.Second)
+				w.stop(victim)
+			}
 		case "restart-heal":
 			// the member stops and starts again (repeating the handshake with its seed) while the network is still cut;
 			// half a second into the handshake the network heals
@@ -481,6 +523,9 @@ func c20Scripts(r *rng, n int, thorough bool) []c20Case {
 	add("a node is removed while a member is cut off; another member restarts with the cut-off member as its seed; the cut heals during the handshake: the answer must not bring the removed node back",
 		c20Op{Kind: "boot", Node: 1}, c20Op{Kind: "join", Node: 2, Via: 1}, c20Op{Kind: "join", Node: 3, Via: 2}, c20Op{Kind: "join", Node: 4, Via: 1}, c20Op{Kind: "settle"},
 		c20Op{Kind: "cut", Node: 2}, c20Op{Kind: "remove", Node: 4}, c20Op{Kind: "restart-heal", Node: 3}, c20Op{Kind: "settle"})
+	add("a join through one follower and a removal through another at the same moment: what is acknowledged is applied",
+		c20Op{Kind: "boot", Node: 1}, c20Op{Kind: "join", Node: 2, Via: 1}, c20Op{Kind: "join", Node: 3, Via: 1}, c20Op{Kind: "join", Node: 4, Via: 1}, c20Op{Kind: "settle"},
+		c20Op{Kind: "join+remove", Node: 5, Via: 2, Other: 4, Via2: 3}, c20Op{Kind: "settle"})
 	for len(cs) < n {
 		// random histories: 2..4 joins, optional removal, snapshot + restart of a random member, a late join
 		var ops []c20Op
